@@ -7,13 +7,21 @@ use marrow::array::Array;
 use marrow::datatypes::Field;
 use serde_json::json;
 
-pub fn ser_case(ctx: &mut Ctx, fields: &[Field], rows: &[Val], label: &str, injected: Option<String>) -> usize {
-    let out: Out<Vec<Array>> = guarded(|| serde_arrow::to_marrow(fields, rows).map_err(|e| e.to_string()));
+pub fn ser_case(ctx: &mut Ctx, fields: &[Field], rows: &[Val], label: &str, injected: Option<String>) -> usize { ser_case_after(ctx, fields, None, rows, label, injected) }
+
+/// the rows are the batch judged; with `earlier` they are pushed into an ArrayBuilder that has
+/// already produced a batch from the earlier rows (state carried across batches must not leak)
+pub fn ser_case_after(ctx: &mut Ctx, fields: &[Field], earlier: Option<&[Val]>, rows: &[Val], label: &str, injected: Option<String>) -> usize {
+    let out: Out<Vec<Array>> = match earlier {
+        None => guarded(|| serde_arrow::to_marrow(fields, rows).map_err(|e| e.to_string())),
+        Some(first) => guarded(|| { let mut b = serde_arrow::ArrayBuilder::from_marrow(fields).map_err(|e| e.to_string())?; b.extend(first).map_err(|e| format!("earlier batch: {}", e))?; b.to_marrow().map_err(|e| e.to_string())?; b.extend(rows).map_err(|e| e.to_string())?; b.to_marrow().map_err(|e| e.to_string()) }),
+    };
+    if earlier.is_some() { ctx.count(&format!("after_an_earlier_batch:{}", out.class())); }
     ctx.count(&format!("{}:{}", label, out.class()));
     if let Some(w) = &injected { ctx.count(&format!("injected:{}:{}", w, out.class())); }
     let coq = format!("{{| c_fields := {}; c_rows := {}; c_impl := {} |}}",
         cf::list(fields, arrgen::field_coq), cf::list(rows, arrgen::val_coq), out.coq(|a| cf::list(a, arrgen::array_coq)));
-    let desc = json!({"fields": format!("{:?}", fields.iter().map(|f| (&f.name, &f.data_type, f.nullable)).collect::<Vec<_>>()), "rows": format!("{:?}", rows), "injected": injected,
+    let desc = json!({"fields": format!("{:?}", fields.iter().map(|f| (&f.name, &f.data_type, f.nullable)).collect::<Vec<_>>()), "rows": format!("{:?}", rows), "injected": injected, "earlier_batch": earlier.map(|e| format!("{:?}", e)),
         "impl": match &out { Out::Ok(a) => json!({"ok": format!("{:?}", a)}), Out::Err(e) => json!({"err": e}), Out::Panic(p) => json!({"panic": p}) }});
     let nontrivial = fields.iter().any(|f| matches!(f.data_type, marrow::datatypes::DataType::Struct(_) | marrow::datatypes::DataType::List(_) | marrow::datatypes::DataType::LargeList(_) | marrow::datatypes::DataType::Map(..) | marrow::datatypes::DataType::Union(..) | marrow::datatypes::DataType::FixedSizeList(..) | marrow::datatypes::DataType::Dictionary(..))) || !matches!(out, Out::Ok(_));
     let idx = ctx.add_case(coq, desc, nontrivial);
@@ -38,7 +46,7 @@ pub fn ser_case(ctx: &mut Ctx, fields: &[Field], rows: &[Val], label: &str, inje
 pub fn run(ctx: &mut Ctx) {
     ctx.runner = "RunC01".into();
     ctx.shard_size = 120;
-    ctx.rule = "random schemas (1-3 top-level fields, depth <= 3, all supported data types, nullable or not) x 0-17 rows in random presentations (integer widths, str/char/number into strings, bytes vs sequences, struct vs map vs tuple records, enum variants, Option/newtype layers, permuted/absent/extra fields); ~20% of the cases carry one injected invalid value (out of range, null into non-nullable, missing/duplicate field, wrong fixed count, unknown variant, wrong kind). Non-trivial = schema has a container or the outcome is not Ok; distinct by (schema, rows, result)".into();
+    ctx.rule = "random schemas (1-3 top-level fields, depth <= 3, all supported data types, nullable or not) x 0-17 rows (a quarter of the batches after an earlier batch of the same reused ArrayBuilder) in random presentations (integer widths, str/char/number into strings, bytes vs sequences, struct vs map vs tuple records, enum variants, Option/newtype layers, permuted/absent/extra fields); ~20% of the cases carry one injected invalid value (out of range, null into non-nullable, missing/duplicate field, wrong fixed count, unknown variant, wrong kind). Non-trivial = schema has a container or the outcome is not Ok; distinct by (schema, rows, result)".into();
     let n = if ctx.thorough { 20000 } else { 1200 };
     for i in 0..n {
         let mut rng = ctx.rng.fork();
@@ -49,7 +57,10 @@ pub fn run(ctx: &mut Ctx) {
         let inject = rng.chance(1, 5) && nrows > 0;
         let mut inj = Inject { countdown: if inject { rng.below(nrows * 3) as i32 } else { -1 }, what: None };
         let rows: Vec<Val> = (0..nrows).map(|_| arrgen::gen_record(&mut rng, &fields, &mut inj)).collect();
-        ser_case(ctx, &fields, &rows, if i >= n / 2 { "core" } else { "random" }, inj.what.clone());
+        // a quarter of the batches is produced by a builder that has already delivered a batch of valid rows
+        let earlier: Option<Vec<Val>> = if rng.chance(1, 4) { let k = 1 + rng.below(3); let mut none = Inject { countdown: -1, what: None }; let first: Vec<Val> = (0..k).map(|_| arrgen::gen_record(&mut rng, &fields, &mut none)).collect();
+            if serde_arrow::to_marrow(&fields, &first).is_ok() { Some(first) } else { None } } else { None };
+        ser_case_after(ctx, &fields, earlier.as_deref(), &rows, if i >= n / 2 { "core" } else { "random" }, inj.what.clone());
     }
     arrgen::CORE_ONLY.store(false, std::sync::atomic::Ordering::Relaxed);
 }
